@@ -15,6 +15,16 @@ US = dt.timedelta(microseconds=1)
 BASE = dt.datetime(2020, 1, 1, 12, 0, 0)
 
 
+
+def _safe(fn, *a):
+    """an oracle call made by the harness itself (not by the code under test) must not abort the run: an
+    exception reads as "no answer"; if the code under test meets the same exception it is observed there"""
+    try:
+        return fn(*a)
+    except Exception:  # noqa: BLE001
+        return None
+
+
 def us(t: dt.datetime) -> int:
     return (t - DT_MIN) // US
 
@@ -162,7 +172,7 @@ def run_history(case):
                 obs.append({"note": note, "combined": comb, "devs": devs, "next": None if nv is None else us(nv)})
     finally:
         loop.close()
-    return {"ops": decoded_ops, "obs": obs, "ipver": {loc: ip_version_from_location(loc) for loc in sorted(seen_locs)}}
+    return {"ops": decoded_ops, "obs": obs, "ipver": {loc: _safe(ip_version_from_location, loc) for loc in sorted(seen_locs)}}
 
 
 # ---------------------------------------------------------------------- printers
